@@ -6,6 +6,7 @@ import (
 	"bytes"
 	"context"
 	"fmt"
+	"iter"
 	"strconv"
 	"strings"
 
@@ -38,6 +39,7 @@ func runHist(spec string, massive bool) string {
 	defer jailLeave()
 	var handles []*gtree.Node
 	var outs []string
+	var iters map[string]iter.Seq2[*gtree.WalkerNode, error]
 	node := func(h string) *gtree.Node {
 		if h == "N" {
 			return nil
@@ -111,6 +113,35 @@ func runHist(spec string, massive bool) string {
 				seq = gtree.WalkIterProgrammably(node(f[1]), opts...)
 			}
 			for wn, err := range seq {
+				if err != nil {
+					ierr = err
+					break
+				}
+				vs = append(vs, recVisit(wn))
+				i++
+				if i-1 == brk {
+					break
+				}
+			}
+			outs = append(outs, classify(ierr, -1)+" "+visitsStr(vs))
+		case "Ic":
+			// Ic,K,h,LD,LI,MD,MI : obtain the iterator now, consume it later (Ir)
+			opts := []gtree.Option{
+				gtree.WithBranchFormatLastNode(unhex(f[3]), unhex(f[4])),
+				gtree.WithBranchFormatIntermedialNode(unhex(f[5]), unhex(f[6])),
+			}
+			if iters == nil {
+				iters = map[string]iter.Seq2[*gtree.WalkerNode, error]{}
+			}
+			iters[f[1]] = gtree.WalkIterFromRoot(node(f[2]), opts...)
+			outs = append(outs, "c")
+		case "Ir":
+			// Ir,K,BREAK : range over the iterator obtained by Ic,K
+			brk := optInt(f[2])
+			var vs []visitRec
+			var ierr error
+			i := 0
+			for wn, err := range iters[f[1]] {
 				if err != nil {
 					ierr = err
 					break
